@@ -367,6 +367,21 @@ func (p *Prog) InModulePkg(pk *ssa.Package) bool {
 	return pk != nil && pk.Pkg != nil && strings.HasPrefix(pk.Pkg.Path(), modulePath)
 }
 
+type constEntry struct{ K, V AV }
+
+var constMapEntries = map[*ssa.Global][]constEntry{}
+
+// ConstMapKeys: the entries of a constant table (see ConstMap) in a deterministic order; only for tables whose keys
+// are integers or runes.
+func (p *Prog) ConstMapKeys(g *ssa.Global) []constEntry {
+	if p.ConstMap(g) == nil {
+		return nil
+	}
+	return constMapEntries[g]
+}
+
+var constMapValueTypes = map[*ssa.Global][]types.Type{}
+
 var constMapCache = map[*ssa.Global]map[string]AV{}
 var constMapDone = map[*ssa.Global]bool{}
 
@@ -429,15 +444,41 @@ func (p *Prog) ConstMap(g *ssa.Global) map[string]AV {
 		return nil
 	}
 	tab := map[string]AV{}
+	var entries []constEntry
+	intKeys := true
 	for _, r := range *mk.Referrers() {
 		switch u := r.(type) {
 		case *ssa.MapUpdate:
 			k, kok := u.Key.(*ssa.Const)
-			v, vok := u.Value.(*ssa.Const)
-			if !kok || !vok {
+			val := u.Value
+			if mi, isMI := val.(*ssa.MakeInterface); isMI {
+				val = mi.X // a table of interface values holding constants
+				constMapValueTypes[g] = append(constMapValueTypes[g], mi.X.Type())
+			}
+			if !kok {
 				return nil
 			}
-			tab[constAV(k).String()] = constAV(v)
+			var vav AV
+			switch v := val.(type) {
+			case *ssa.Const:
+				vav = constAV(v)
+			case *ssa.Function: // a table of function literals without captured variables
+				vav = AV{K: KFunc, Fn: v}
+			case *ssa.MakeClosure:
+				fn, isFn := v.Fn.(*ssa.Function)
+				if !isFn || len(v.Bindings) > 0 {
+					return nil
+				}
+				vav = AV{K: KFunc, Fn: fn}
+			default:
+				return nil
+			}
+			tab[constAV(k).String()] = vav
+			if constAV(k).K == KInt {
+				entries = append(entries, constEntry{constAV(k), vav})
+			} else {
+				intKeys = false
+			}
 		case *ssa.Store:
 			if u.Addr != g {
 				return nil
@@ -448,5 +489,31 @@ func (p *Prog) ConstMap(g *ssa.Global) map[string]AV {
 		}
 	}
 	constMapCache[g] = tab
+	if intKeys {
+		sort.Slice(entries, func(i, j int) bool { return entries[i].K.I < entries[j].K.I })
+		constMapEntries[g] = entries
+	}
 	return tab
+}
+
+// OwnedBy: is fn the function with key owner, or a helper split off from it — a function all of whose callers
+// (transitively, a few levels) are owned by it?
+func (p *Prog) OwnedBy(fn *ssa.Function, owner string) bool {
+	var rec func(f *ssa.Function, depth int) bool
+	rec = func(f *ssa.Function, depth int) bool {
+		if p.FuncKey(f) == owner {
+			return true
+		}
+		css := p.CallSites(f)
+		if depth > 3 || len(css) == 0 {
+			return false
+		}
+		for _, cs := range css {
+			if cs.Common().StaticCallee() != f || !rec(cs.Parent(), depth+1) {
+				return false
+			}
+		}
+		return true
+	}
+	return rec(fn, 0)
 }
